@@ -162,7 +162,8 @@ structure Sh where
       COMPLETE value at once: kind 0 `Template.reserved_names`, kind 1 `Template.cache` (both
       `util.memoized_property.__get__`), kind 2 `Cache._def_regions[defname]` (`Cache._get_cache_kw`: the per-def
       keyword dict), further kinds: `lexer._regexp_cache[(regexp, flags)]`, `ModuleInfo._modules[…]`,
-      `_uri_cache[key]` of the unbounded lookup.  That the real code stores each of these objects only when it is
+      `_uri_cache[key]` of the unbounded lookup, the module of `<%namespace module=…/>` (first import, under the import
+      lock).  That the real code stores each of these objects only when it is
       complete is a regenerated obligation (`Generated/Conc.lean: memoCells`, proved in `Props/C16.lean`). -/
   memo : Nat → Nat → Option Nat
   /-- ghost: the templates whose construction completed, in order -/
